@@ -219,22 +219,40 @@ def run(ctx: Ctx, rs: RuleSet, tier: str):
     arg = f.params[1]
     # validated directly, or by an editor of this module that is called first
     # with the same (buildable, argument)
+    # the argument, or locals that merely hold it
+    args_ = {arg}
+    for _ in range(3):
+      args_ |= roles.assigned_from(f, lambda e: isinstance(
+          e, ast.Name) and e.id in args_)
     val = {n for n in g.nodes() if any(
         isinstance(e, ast.Call) and p.resolve(e.func, f) in (
             f'{T}._validate_argument_name', f'{T}.clear_tags', f'{T}.add_tag',
             f'{T}.remove_tag') and len(e.args) >= 2 and
-        unparse(e.args[1]) == arg for e in cfg_lib.walk_node(g, n))}
+        unparse(e.args[1]) in args_ for e in cfg_lib.walk_node(g, n))}
     conv = {n for n in g.nodes() if isinstance(g.stmt[n], ast.Assign) and
-            unparse(g.stmt[n].targets[0]) == arg and
-            'index_to_key' in unparse(g.stmt[n].value)}
-    conv_guard = {n for n in g.nodes() if g.kind[n] == 'if' and unparse(
-        g.stmt[n].test) == f'isinstance({arg}, int)'}
+            g.kind[n] == 'stmt' and isinstance(
+                g.stmt[n].targets[0], ast.Name) and any(
+                    isinstance(c_, ast.Call) and isinstance(
+                        c_.func, ast.Attribute) and
+                    c_.func.attr == 'index_to_key' and c_.args and
+                    unparse(c_.args[0]) in args_
+                    for c_ in ast.walk(g.stmt[n].value))}
+    keys_ = set(args_) | {g.stmt[n].targets[0].id for n in conv}
+    conv_guard = {n for n in g.nodes() if g.kind[n] == 'if' and any(
+        isinstance(c_, ast.Call) and unparse(c_) in {
+            f'isinstance({a_}, int)' for a_ in args_}
+        for c_ in ast.walk(g.stmt[n].test))}
     uses = [n for n in g.nodes() if n not in conv and any(
         isinstance(e, ast.Subscript) and isinstance(e.value, ast.Attribute) and
         e.value.attr == '__argument_tags__' for e in cfg_lib.walk_node(g, n))]
+    use_keys = {unparse(e.slice) for n in uses for e in cfg_lib.walk_node(g, n)
+                if isinstance(e, ast.Subscript) and isinstance(
+                    e.value, ast.Attribute) and
+                e.value.attr == '__argument_tags__'}
     ok = bool(val) and bool(conv) and bool(conv_guard) and bool(uses) and all(
         g.dominated_by(u, val, labels=cfg_lib.NO_EXC) and
-        g.dominated_by(u, conv_guard, labels=cfg_lib.NO_EXC) for u in uses)
+        g.dominated_by(u, conv_guard, labels=cfg_lib.NO_EXC) for u in uses
+    ) and use_keys <= keys_
     rs.check(ok, rule, f.qualname,
              'validate -> (int -> storage key) -> tag set access'
              if ok else f'validated={bool(val)} converted={bool(conv)} '
